@@ -221,6 +221,25 @@ func c14RunLarge(c c14Case, st *fw.Stats) []fw.Viol {
 				addViol("router:large:len", fmt.Sprintf("router built with %s: after three dynamic requests its cache of capacity 0 holds %d entries", name, cache.Len()))
 			}
 		}
+		// two capacity options in a row: the one applied last rules (capacity = number of entries after many distinct requests)
+		for name, tc := range map[string]struct {
+			opts []func(*rux.Router)
+			want int
+		}{"CachingWithNum(5), MaxNumCaches(2)": {[]func(*rux.Router){rux.CachingWithNum(5), rux.MaxNumCaches(2)}, 2}, "CachingWithNum(2), MaxNumCaches(5)": {[]func(*rux.Router){rux.CachingWithNum(2), rux.MaxNumCaches(5)}, 5},
+			"MaxNumCaches(2), CachingWithNum(5)": {[]func(*rux.Router){rux.MaxNumCaches(2), rux.CachingWithNum(5)}, 5}, "CachingWithNum(5), CachingWithNum(3)": {[]func(*rux.Router){rux.CachingWithNum(5), rux.CachingWithNum(3)}, 3}} {
+			r1 := rux.New(tc.opts...)
+			r1.GET("/p/{id}", func(*rux.Context) {})
+			for i := 0; i < 9; i++ {
+				r1.Match("GET", fmt.Sprintf("/p/%d", i))
+			}
+			if cache := r1.VerifCache(); cache == nil || cache.Len() != tc.want {
+				n := -1
+				if cache != nil {
+					n = cache.Len()
+				}
+				addViol("router:large:len", fmt.Sprintf("router built with %s: after nine distinct dynamic requests its cache holds %d entries, a bounded LRU of the capacity set last holds %d", name, n, tc.want))
+			}
+		}
 		r := rux.New(rux.CachingWithNum(uint16(N)))
 		rux.NewRoute("/p/{id}", func(*rux.Context) {}, "GET").AttachTo(r)
 		rux.NewNamedRoute("q", "/q/{id}/{x}", func(*rux.Context) {}, "GET").AttachTo(r)
